@@ -18,6 +18,35 @@ CFG = {
 }
 
 
+def hetero_stacks(rnd, tier):
+    """C04: stacks of files whose non-stack variables differ (a permuted or
+    masked copy of the same template) in every argument order."""
+    progs = []
+    n = 150 if tier == 'quick' else 1500
+    dims = {'T1': ['t', 'y', 'x'], 'T2': ['t', 'x'], 'T3': ['y', 't', 'x'],
+            'T4': ['t', 'y', 'x'], 'T5': ['time', 'lev']}
+    for i in range(n):
+        t = rnd.choice(sorted(dims))
+        d1, d2 = rnd.sample(dims[t], 2)
+        rev = {'k': 'slice', 'h': [False, False, True], 'v': [0, 0, -1]}
+        steps = [{'act': 'slice', 'src': 1, 'others': [],
+                  'args': {'sels': [{'d': d1, 's': rev}],
+                           'newdim': 'POINTS'}}]
+        if rnd.random() < 0.4:
+            steps.append({'act': 'mask', 'src': 2, 'others': [], 'args': {
+                'p': [{'k': 'greater', 'v': rnd.choice([15, 105, 305, 405])}],
+                'where': {'h': False, 'shape': [], 'bits': []},
+                'usedims': {'h': False, 'v': []}, 'coords': True}})
+        nobj = 2 + len(steps)
+        k = rnd.randint(1, 2)
+        src = rnd.randint(1, nobj)
+        steps.append({'act': 'stack', 'src': src,
+                      'others': [rnd.randint(1, nobj) for _ in range(k)],
+                      'args': {'dim': d2, 'aslist': rnd.random() < 0.5}})
+        progs.append({'templates': [t, t], 'steps': steps})
+    return progs
+
+
 def run(prop, tier, extra=None):
     c = CFG[prop]
     out = Outcome(prop, tier)
@@ -29,8 +58,8 @@ def run(prop, tier, extra=None):
         if prop == 'C06':
             focus = rnd.choice(['arith', 'eval', 'mask'])
         progs.append(cd.gen_program(rnd, rnd.choice(c['depths']), focus=focus))
-    if extra:
-        progs += extra(rnd, tier)
+    if prop == 'C04':
+        progs += hetero_stacks(rnd, tier)
     # spec -> code: every program the bounded model emits is replayed
     mcp = cd.mc_programs(out, prop, tier)
     out.cov['programs_emitted_by_tlc'] = len(mcp)
